@@ -14,7 +14,7 @@ use crate::tape::Tape;
 
 pub static PROP: PropDef = PropDef {
     id: "C18",
-    rule: "every decode is repeated from a buffer of several chunks and must give the same stream id, payload or refusal; encode cases: (quarter id k, payload, consumption pattern of the encoded Buf) -> bytes must equal varint(k) || payload and decode back to (4k, payload); \
+    rule: "API level (h3-datagram DatagramReader / DatagramSender on an h3 client or server connection over the simulated transport): QUIC datagrams sent by a raw peer are read in order as (stream id, payload) until the first invalid one (every string of <= 1 byte, every cut of every boundary id), which is the connection error H3_DATAGRAM_ERROR with that close code; send_datagram puts exactly varint(S/4) || payload on the wire. Codec level: every decode is repeated from a buffer of several chunks and must give the same stream id, payload or refusal; encode cases: (quarter id k, payload, consumption pattern of the encoded Buf) -> bytes must equal varint(k) || payload and decode back to (4k, payload); \
            decode cases: byte string -> accepted iff the varint is complete and 4*q <= 2^62-1, else H3_DATAGRAM_ERROR. exhaustive: all k < 2^16 with three consumption patterns, \
            every varint form boundary, all strings of <= 2 bytes (3 in thorough); random k, payloads 0..1500 and strings 0..9(+payload) from the tape. \
            non-trivial = quarter id needing >= 2 bytes, or a consumption pattern that splits the header, or a rejected input; distinct by (k, payload hash, pattern) / input bytes",
@@ -27,7 +27,7 @@ pub static PROP: PropDef = PropDef {
     run_tape,
     exhaustive: Some(exhaustive),
     run_direct: Some(run_direct),
-    min_classes: &[("header_split", 1000), ("multi_byte_id", 10000), ("decode_rejected", 100), ("decode_accepted", 1000)],
+    min_classes: &[("header_split", 1000), ("multi_byte_id", 10000), ("decode_rejected", 100), ("decode_accepted", 1000), ("api_refused_datagram", 200), ("api_valid_datagrams_read", 200), ("api_send_checked", 200)],
     extra: None,
 };
 
@@ -276,9 +276,218 @@ fn check_decode(b: &[u8], ctx: &mut Ctx) -> Verdict {
     Ok(())
 }
 
+
+// ------------------------------------------------------------------------------------------------
+// the same statement through the connection-level API (h3-datagram's reader / sender over the simulated transport)
+
+use crate::simnet::app::{conn_info, err_info, ClientConn, ConnInfo, ErrInfo, SendReq, ServerConn};
+use crate::simnet::exec::{shared, Exec, NoActor, RunEnd, Shared, Style};
+use crate::simnet::peer::{self, PeerOp, RawPeer};
+use crate::simnet::{Net, Side};
+use h3_datagram::datagram_handler::HandleDatagramsExt;
+
+#[derive(Default, Debug, Clone)]
+struct ApiObs {
+    /// results of successive read_datagram calls (until the first error)
+    reads: Vec<Result<(u64, Vec<u8>), ErrInfo>>,
+    sends: Vec<Result<(), String>>,
+    driver: Option<ConnInfo>,
+}
+
+/// `incoming`: QUIC datagram payloads the raw peer sends, in order; `sends`: (quarter id, payload) handed to send_datagram
+fn check_api(server: bool, incoming: &[Vec<u8>], sends: &[(u64, Vec<u8>)], sched: &[u16], ctx: &mut Ctx) -> Verdict {
+    ctx.eval();
+    fastrand::seed(41);
+    let case = || json!({"kind": "api", "server": server, "incoming": incoming.iter().map(|d| hex(d)).collect::<Vec<_>>(), "sends": sends.iter().map(|(k, p)| json!([k.to_string(), hex(p)])).collect::<Vec<_>>(), "sched": sched});
+    let net = Net::new();
+    let side = if server { Side::Server } else { Side::Client };
+    let raw = side.other();
+    net.set_raw(raw);
+    let o: Shared<ApiObs> = shared(ApiObs::default());
+    let mut ex = Exec::new();
+    let sp = ex.spawner.clone();
+    let n_in = incoming.len();
+    let sends_v: Vec<(u64, Vec<u8>)> = sends.to_vec();
+    if server {
+        let (net2, o2, sp2) = (net.clone(), o.clone(), sp.clone());
+        ex.spawn("server", async move {
+            let mut b = h3::server::builder();
+            b.send_grease(false).enable_datagram(true);
+            let mut conn: ServerConn = match b.build(net2.conn(Side::Server)).await {
+                Ok(c) => c,
+                Err(e) => {
+                    o2.borrow_mut().driver = Some(conn_info(&e));
+                    return;
+                }
+            };
+            let mut rd = conn.get_datagram_reader();
+            let o3 = o2.clone();
+            sp2.spawn("reader", async move {
+                for _ in 0..n_in {
+                    match rd.read_datagram().await {
+                        Ok(d) => o3.borrow_mut().reads.push(Ok((d.stream_id().into_inner(), d.payload().to_vec()))),
+                        Err(e) => {
+                            o3.borrow_mut().reads.push(Err(err_info(&e)));
+                            break;
+                        }
+                    }
+                }
+            });
+            for (k, p) in &sends_v {
+                let r = match StreamId::try_from(4 * *k) {
+                    Ok(id) => conn.get_datagram_sender(id).send_datagram(Bytes::from(p.clone())).map_err(|e| format!("{e}")),
+                    Err(_) => Err("stream id out of range".to_string()),
+                };
+                o2.borrow_mut().sends.push(r);
+            }
+            loop {
+                match conn.accept().await {
+                    Ok(Some(_)) => {}
+                    Ok(None) => break,
+                    Err(e) => {
+                        o2.borrow_mut().driver = Some(conn_info(&e));
+                        break;
+                    }
+                }
+            }
+            // (dropping the connection would add its own H3_NO_ERROR close)
+            std::future::pending::<()>().await;
+            drop(conn);
+        });
+    } else {
+        let (net2, o2, sp2) = (net.clone(), o.clone(), sp.clone());
+        ex.spawn("client", async move {
+            let mut b = h3::client::builder();
+            b.send_grease(false).enable_datagram(true);
+            let (mut conn, sr): (ClientConn, SendReq) = match b.build(net2.conn(Side::Client)).await {
+                Ok(x) => x,
+                Err(e) => {
+                    o2.borrow_mut().driver = Some(conn_info(&e));
+                    return;
+                }
+            };
+            let mut rd = conn.get_datagram_reader();
+            let o3 = o2.clone();
+            sp2.spawn("reader", async move {
+                for _ in 0..n_in {
+                    match rd.read_datagram().await {
+                        Ok(d) => o3.borrow_mut().reads.push(Ok((d.stream_id().into_inner(), d.payload().to_vec()))),
+                        Err(e) => {
+                            o3.borrow_mut().reads.push(Err(err_info(&e)));
+                            break;
+                        }
+                    }
+                }
+            });
+            for (k, p) in &sends_v {
+                let r = match StreamId::try_from(4 * *k) {
+                    Ok(id) => conn.get_datagram_sender(id).send_datagram(Bytes::from(p.clone())).map_err(|e| format!("{e}")),
+                    Err(_) => Err("stream id out of range".to_string()),
+                };
+                o2.borrow_mut().sends.push(r);
+            }
+            let e = std::future::poll_fn(|cx| conn.poll_close(cx)).await;
+            o2.borrow_mut().driver = Some(conn_info(&e));
+            std::future::pending::<()>().await;
+            drop(sr);
+        });
+    }
+    let mut ops = vec![PeerOp::OpenUni(0), PeerOp::Write(0, peer::control_preamble(&[(0x33, 1)])), PeerOp::Barrier];
+    for d in incoming {
+        ops.push(PeerOp::Datagram(d.clone()));
+    }
+    let mut rp = RawPeer::new(raw, ops);
+    let mut t = Tape::new(sched);
+    let end = ex.run(&net, &mut rp, &mut t, if sched.is_empty() { Style::Eager } else { Style::Random }, 100_000);
+    let _ = NoActor;
+    if end == RunEnd::StepBound {
+        return Err(Failure::fault("step bound"));
+    }
+    if let Some((task, p)) = ex.panics().first() {
+        return Err(Failure::direct(format!("panic in task {task}: {p}"), case()));
+    }
+    let obs = o.borrow().clone();
+    let closes = net.close_calls(side);
+    let fail = |m: String| Err(Failure::direct(format!("{m}; observed {obs:?}, closes {closes:?}"), case()));
+    // sending: exactly varint(k) || payload per accepted datagram, in order
+    let sent = net.lock().ends[side.idx()].datagrams_sent.clone();
+    let mut want_sent: Vec<Vec<u8>> = Vec::new();
+    for ((k, p), r) in sends.iter().zip(obs.sends.iter()) {
+        if r.is_ok() {
+            let mut w = rv::encode(*k).unwrap();
+            w.extend_from_slice(p);
+            want_sent.push(w);
+        }
+    }
+    if sent != want_sent {
+        return fail(format!("datagrams put on the wire {:?}, expected {:?}", sent.iter().map(|d| hex(d)).collect::<Vec<_>>(), want_sent.iter().map(|d| hex(d)).collect::<Vec<_>>()));
+    }
+    if !sends.is_empty() && obs.sends.len() == sends.len() {
+        ctx.class("api_send_checked");
+    }
+    // receiving: in order, until the first invalid one, which is a connection error H3_DATAGRAM_ERROR
+    let mut expect_err = false;
+    for (i, d) in incoming.iter().enumerate() {
+        let valid = match rv::decode(d) {
+            rv::Dec::Ok(q, n) if q <= ((1u64 << 62) - 1) / 4 => Some((q * 4, d[n..].to_vec())),
+            _ => None,
+        };
+        match (valid, obs.reads.get(i)) {
+            (Some(w), Some(Ok(g))) if *g == w => {}
+            (Some(w), other) => return fail(format!("datagram #{i} ({}) is valid for stream {} but read_datagram gave {other:?}", hex(d), w.0)),
+            (None, Some(Err(ErrInfo::Conn(ConnInfo::Local { code })))) if *code == 0x33 => {
+                expect_err = true;
+                break;
+            }
+            (None, other) => return fail(format!("datagram #{i} ({}) must be refused with the connection error H3_DATAGRAM_ERROR, read_datagram gave {other:?}", hex(d))),
+        }
+    }
+    if expect_err {
+        if closes.len() != 1 || closes[0].code != 0x33 {
+            return fail("a refused datagram closes the connection with H3_DATAGRAM_ERROR".into());
+        }
+        ctx.class("api_refused_datagram");
+        ctx.nontrivial(&(7u8, server, incoming.to_vec()));
+    } else {
+        if !closes.is_empty() || obs.driver.is_some() {
+            return fail("valid datagrams caused a connection error".into());
+        }
+        if !incoming.is_empty() {
+            ctx.class("api_valid_datagrams_read");
+        }
+    }
+    Ok(())
+}
+
 const KB: [u64; 12] = [0, 1, 62, 63, 64, 65, 16383, 16384, (1 << 30) - 1, 1 << 30, (1 << 60) - 2, (1 << 60) - 1];
 
 fn exhaustive(ctx: &mut Ctx, shard: usize, nshards: usize) -> Verdict {
+    // API level: every byte string of <= 1 byte and a set of boundary strings as the first / second incoming datagram
+    if shard == 0 {
+        let mut strings: Vec<Vec<u8>> = vec![vec![]];
+        for b in 0..=255u8 {
+            strings.push(vec![b]);
+        }
+        for k in KB {
+            if let Some(e) = rv::encode(k) {
+                let mut with = e.clone();
+                with.extend_from_slice(b"pay");
+                strings.push(with);
+                for cut in 1..e.len() {
+                    strings.push(e[..cut].to_vec());
+                }
+                strings.push(rv::encode_len(k, 8).unwrap());
+            }
+        }
+        strings.push(rv::encode_len(1 << 60, 8).unwrap());
+        strings.push(vec![0xff; 8]);
+        for server in [true, false] {
+            for (i, d) in strings.iter().enumerate() {
+                check_api(server, &[d.clone()], &[(KB[i % KB.len()], vec![i as u8; i % 5])], &[], ctx)?;
+                check_api(server, &[vec![0x01, b'a'], d.clone(), vec![0x02]], &[], &[], ctx)?;
+            }
+        }
+    }
     let top: u64 = ctx.tier.pick(1 << 16, 1 << 20);
     let pats = [Consume::CopyAll, Consume::Steps(vec![1]), Consume::Vectored];
     for k in 0..top {
@@ -368,6 +577,41 @@ fn gen_consume(t: &mut Tape) -> Consume {
 
 fn run_tape(tape: &[u16], ctx: &mut Ctx) -> Verdict {
     let mut t = Tape::new(tape);
+    if t.chance(1, 50) {
+        // API level (much more expensive than a codec case)
+        let server = t.bool();
+        let n = t.pick(4);
+        let incoming: Vec<Vec<u8>> = (0..n)
+            .map(|_| match t.pick(4) {
+                0 => t.bytes(3),
+                1 => {
+                    let mut e = rv::encode(*t.choose(&KB)).unwrap_or_default();
+                    let cut = t.pick(e.len() + 1);
+                    if t.chance(1, 3) {
+                        e.truncate(cut);
+                    }
+                    e.extend(t.bytes(4));
+                    e
+                }
+                _ => {
+                    let mut e = rv::encode(t.int(0, 5000)).unwrap();
+                    let n = t.int(0, 1200) as usize;
+                    e.extend(t.bulk(n));
+                    e
+                }
+            })
+            .collect();
+        let m = t.pick(3);
+        let sends: Vec<(u64, Vec<u8>)> = (0..m)
+            .map(|_| {
+                let k = if t.bool() { *t.choose(&KB) } else { t.int(0, 70000) };
+                let n = t.int(0, 1000) as usize;
+                (k, t.bulk(n))
+            })
+            .collect();
+        let sched: Vec<u16> = tape[t.position().min(tape.len())..].to_vec();
+        return check_api(server, &incoming, &sends, &sched, ctx);
+    }
     if t.pick(3) < 2 {
         let k = match t.pick(4) {
             0 => t.int(0, 70),
@@ -414,6 +658,12 @@ fn run_tape(tape: &[u16], ctx: &mut Ctx) -> Verdict {
 fn run_direct(d: &Value, ctx: &mut Ctx) -> Verdict {
     match d.get("kind").and_then(|k| k.as_str()) {
         Some("decode") => check_decode(&unhex(d["bytes"].as_str().unwrap_or("")), ctx),
+        Some("api") => {
+            let incoming: Vec<Vec<u8>> = d["incoming"].as_array().map(|a| a.iter().map(|x| unhex(x.as_str().unwrap_or(""))).collect()).unwrap_or_default();
+            let sends: Vec<(u64, Vec<u8>)> = d["sends"].as_array().map(|a| a.iter().map(|x| (x[0].as_str().and_then(|s| s.parse().ok()).unwrap_or(0), unhex(x[1].as_str().unwrap_or("")))).collect()).unwrap_or_default();
+            let sched: Vec<u16> = d["sched"].as_array().map(|a| a.iter().map(|x| x.as_u64().unwrap_or(0) as u16).collect()).unwrap_or_default();
+            check_api(d["server"].as_bool().unwrap_or(true), &incoming, &sends, &sched, ctx)
+        }
         Some("encode") => {
             let k = d["k"].as_u64().unwrap_or(0);
             let payload = unhex(d["payload"].as_str().unwrap_or(""));
